@@ -1,3 +1,41 @@
-From DI Require Import PyStr Version.
-Theorem C04_placeholder : True. Proof. exact I. Qed.
-Print Assumptions C04_placeholder.
+(* C04 - Printing a version and parsing it back gives the same version. *)
+From Coq Require Import String.
+From Coq Require Import NArith List Bool.
+From DI Require Import Result PyStr Version Policy ParseFacts.
+Import ListNotations.
+Open Scope N_scope.
+
+Theorem C04_roundtrip : forall s v, from_string s = Ok v -> from_string (to_string v) = Ok v.
+Proof. exact roundtrip. Qed.
+Print Assumptions C04_roundtrip.
+
+(* printing is idempotent: the re-parsed version prints the same *)
+Corollary C04_print_idempotent : forall s v v',
+  from_string s = Ok v -> from_string (to_string v) = Ok v' -> to_string v' = to_string v.
+Proof. intros s v v' H H'. rewrite (roundtrip s v H) in H'. now inversion H'. Qed.
+Print Assumptions C04_print_idempotent.
+
+(* the printed form: normalised epoch (absent when zero, no leading zeros), the
+   upstream, and the revision - omitted only when it is "0", the upstream has no
+   hyphen and ends in an alphanumeric *)
+Theorem C04_printed_form : forall ep u rv, u <> [] ->
+  to_string (mkVersion ep u rv) =
+  (if ep =? 0 then [] else N_to_dec ep ++ [58]) ++ u ++
+  (if negb (str_eqb rv [48]) then 45 :: rv
+   else if mem_char 45 u || negb (last_is is_ascii_alnum u) then [45; 48] else []).
+Proof. exact to_string_eq. Qed.
+Print Assumptions C04_printed_form.
+
+Theorem C04_epoch_normalised : forall n,
+  N_to_dec n <> [] /\ forallb is_ascii_digit (N_to_dec n) = true /\ dec_to_N (N_to_dec n) = n /\
+  (n <> 0 -> match N_to_dec n with c :: _ => c <> 48 | [] => False end).
+Proof. exact N_to_dec_spec. Qed.
+Print Assumptions C04_epoch_normalised.
+
+Example C04_hyphenated_zero_revision :
+  exists v, from_string (lit "00:1-2-0") = Ok v /\ to_string v = lit "1-2-0".
+Proof. eexists. split; vm_compute; reflexivity. Qed.
+
+Example C04_tilde_zero_revision :
+  exists v, from_string (lit "1~-0") = Ok v /\ to_string v = lit "1~-0".
+Proof. eexists. split; vm_compute; reflexivity. Qed.
